@@ -271,8 +271,22 @@ def gen_creating(seed, did):
     tail = []
     while body and body[-1].split()[0] in ("drop", "dropall"):
         tail.insert(0, body.pop())
-    ins = [l.split()[1] for l in body if l.split()[0] == "in"]
-    inbs = [l.split()[1] for l in body if l.split()[0] == "inb"]
+    # insertion point: in front of the original `out` statements (nodes of the design follow the new ones in m_nodes),
+    # never inside an open if / area
+    cut = next((k for k, l in enumerate(body) if l.split()[0] == "out"), len(body))
+    cut = rng.randint(min(2, cut), cut)
+    depth, safe = 0, []
+    for k, l in enumerate(body[:cut + 1]):
+        if depth == 0:
+            safe.append(k)
+        t = l.split()[0]
+        if t in ("if", "area"):
+            depth += 1
+        elif t in ("endif", "endarea"):
+            depth -= 1
+    cut = max([k for k in safe if k <= cut] or [len(body)])
+    ins = [l.split()[1] for l in body[:cut] if l.split()[0] == "in"]
+    inbs = [l.split()[1] for l in body[:cut] if l.split()[0] == "inb"]
     extra, outs, shapes = [], [], []
     n = [0]
 
@@ -319,20 +333,6 @@ def gen_creating(seed, did):
         extra += [f"bin {a} add {i} {i}", f"pathattr {i} {a}"]
         outs.append(a)
         shapes.append("pathattr")
-    # the extra statements go in front of the original `out` statements: nodes of the design follow them in m_nodes
-    cut = next((k for k, l in enumerate(body) if l.split()[0] == "out"), len(body))
-    cut = rng.randint(min(2, cut), cut)
-    # never inside an open if / area
-    depth, safe = 0, []
-    for k, l in enumerate(body[:cut + 1]):
-        if depth == 0:
-            safe.append(k)
-        t = l.split()[0]
-        if t in ("if", "area"):
-            depth += 1
-        elif t in ("endif", "endarea"):
-            depth -= 1
-    cut = max([k for k in safe if k <= cut] or [len(body)])
     new = body[:cut] + extra + body[cut:] + [f"out oc{k} {v}" for k, v in enumerate(outs)]
     return [head] + new + tail, used + shapes
 
@@ -731,7 +731,7 @@ def san_classify(out):
     return fatal, notes
 
 
-def run_asan(exe, work, seed, designs, nseq, nops):
+def run_asan(exe, work, seed, designs, nseq, nops, slacks="-"):
     if work.exists():
         shutil.rmtree(work)
     work.mkdir(parents=True)
@@ -756,7 +756,7 @@ def run_asan(exe, work, seed, designs, nseq, nops):
             return None, {}
         pf = work / f"designs{i}.txt"
         G.write_programs(pf, [d[0] for d in shards[i]])
-        rc, out = V.run([exe, "design", str(pf), str(work), "def,min", "1"], timeout=3000, env=env)
+        rc, out = V.run([exe, "design", str(pf), str(work), "def,min", "1", slacks], timeout=3000, env=dict(env, C09_CASE_TIMEOUT="120"))
         fatal, n = san_classify(out)
         if rc != 0 or fatal:
             ids = [d[0][0].split()[1] for d in shards[i]]
@@ -925,7 +925,7 @@ def main():
         if exe is None:
             asan = dict(built=False, error=err)
         else:
-            findings, runs, notes = run_asan(exe, WORK / "asan", seed, designs, 600, 150)
+            findings, runs, notes = run_asan(exe, WORK / "asan", seed, designs, 600, 150, slacks="-,0,1,3")
             asan = dict(built=True, flags=ASAN_FLAGS, runs=runs, fatal_reports=len(findings),
                         recoverable_vptr_notes_by_location=notes,
                         note="supporting evidence only: absence of reports on the sampled corpora, not a proof of memory safety")
